@@ -121,7 +121,7 @@ func c02Script(sc *L1Scenario, tier int) {
 		n = 60
 	}
 	for i := 0; i < n; i++ {
-		switch r.Weighted([]int{18, 40, 8, 10, 8, 10, 6, 14, 8}) {
+		switch r.Weighted([]int{18, 40, 8, 10, 8, 10, 6, 14, 8, 12}) {
 		case 0:
 			sc.Advance([]int64{period, period + sec, sec, 1}[r.Intn(4)])
 		case 1: // claim a leaf against an output that was proposed with a tree containing it
@@ -171,6 +171,15 @@ func c02Script(sc *L1Scenario, tier int) {
 			op.Bridge, op.Idx = b, pt.Idx
 			op.Amt = new(big.Int).Add(op.Amt, new(big.Int).Mul(two64, big.NewInt(int64(1+r.Intn(2)))))
 			sc.Case.Do(op)
+		case 9: // the claim is submitted again from INSIDE its own payout transfer (receiver-side hook)
+			if len(live) == 0 {
+				continue
+			}
+			pt := live[r.Intn(len(live))]
+			if r.Bool() {
+				sc.Advance(period)
+			}
+			sc.ClaimReentrant(pt, r.Intn(len(pt.Tree.Ws)), b, pt.Idx, e.User(uint64(1+r.Intn(7))).Str)
 		}
 	}
 }
@@ -267,7 +276,7 @@ func genC02(seed uint64, tier, outdir string) *Report {
 	w.Replay, w.AdvanceChance = 60, 55
 	rep := runMoneyStream(MoneyStream{Prop: "C02", Weights: w, NRandom: [2]int{12, 150}, Len: [2]int{60, 140},
 		Scripts: []func(*L1Scenario, int){c02Script}, NScript: [2]int{16, 200},
-		Monitors: []L1Monitor{c02Monitor, provenLeafMonitor("C02")}, Extra: c02Exhaustive,
+		Monitors: []L1Monitor{c02Monitor, provenLeafMonitor("C02"), reentryMonitor("C02")}, Extra: c02Exhaustive,
 		Prep: whalePrep, Spice: (*L1Scenario).variantStep, SpicePct: 12,
 		Rule: "a case is one L1 history on a fresh instance (scripted resubmission-dense schedule plus random tail, fully random, or one schedule of the exhaustive enumeration); distinct by hash of the op list; non-trivial = at least one finalization accepted and at least one rejected"},
 		seed, tier, outdir)
